@@ -46,7 +46,7 @@ class Scenario:
                 if j == i:
                     continue
                 if bcast:
-                    pgn = (dp << 16) | (pf << 8) | ps
+                    pgn = (dp << 16) | (pf << 8) | (ps if pf >= 240 else 0)      # PS of a PDU1 PGN is the destination
                     exp.append((j, pgn, sa, data))
                 elif self.addrs[j] == ps:
                     exp.append((j, (dp << 16) | (pf << 8), sa, data))
